@@ -297,7 +297,7 @@ func (f *frameClient) Return(x *core.TSCtx, ret *ssa.Return, s string, err core.
 
 func (f *frameClient) token(x *core.TSCtx, site ssa.CallInstruction, st fstate, t tok, arg ssa.Value) fstate {
 	if st.typ == 0 {
-		if len(x.Stack) == 0 && len(f.c.P.CallSitesOf(x.Fn)) > 0 {
+		if f.root != nil && (len(f.c.P.CallSitesOf(f.root)) > 0 || !f.c.reachesStart()[f.root]) {
 			f.frag = true // fragment helper analysed as a root: only meaningful inside its callers' frames
 			return st
 		}
@@ -446,7 +446,7 @@ func (f *frameClient) Call(x *core.TSCtx, site ssa.CallInstruction, s string) ([
 	case "End":
 		f.Ends++
 		if st.typ == 0 {
-			if len(x.Stack) == 0 && len(f.c.P.CallSitesOf(x.Fn)) > 0 {
+			if f.root != nil && (len(f.c.P.CallSitesOf(f.root)) > 0 || !f.c.reachesStart()[f.root]) {
 				f.frag = true
 			} else {
 				f.fail(x, site, "end-without-start", "End closes a frame opened by Start", "End is reached with no open frame")
@@ -514,4 +514,39 @@ func lenEqGuard(a, b ssa.Value, at *ssa.BasicBlock) bool {
 		}
 	}
 	return false
+}
+
+// reachesStart: functions of S from which a Writer.Start call is reachable through static calls.
+func (c *Ctx) reachesStart() map[*ssa.Function]bool {
+	if c.startReach != nil {
+		return c.startReach
+	}
+	direct := map[*ssa.Function]bool{}
+	callers := map[*ssa.Function][]*ssa.Function{}
+	for _, fn := range c.P.ScopeFuncs() {
+		for _, ci := range core.Calls(fn) {
+			if isWriterMethod(ci, "Start") {
+				direct[fn] = true
+			}
+			if callee := core.StaticCallee(ci); callee != nil && c.P.InScope(callee) {
+				callers[callee] = append(callers[callee], fn)
+			}
+		}
+	}
+	out := map[*ssa.Function]bool{}
+	var mark func(fn *ssa.Function)
+	mark = func(fn *ssa.Function) {
+		if out[fn] {
+			return
+		}
+		out[fn] = true
+		for _, p := range callers[fn] {
+			mark(p)
+		}
+	}
+	for fn := range direct {
+		mark(fn)
+	}
+	c.startReach = out
+	return out
 }
